@@ -497,6 +497,53 @@ def acc1_rule(prog, rep, S):
                 rep.check(isinstance(a, ast.Name) and a.id == "id_map", "ACC-1", "%s passes id_map to %s" % (name, call_name(c)), "same object",
                           "%s calls %s with `%s` instead of its own id_map" % (name, call_name(c), unparse(a) if a is not None else "nothing"),
                           where(f, c), witness="duplicate ids across siblings / levels are missed")
+    # every object is entered into the map in the iteration that looked it up: an id that was not taken is registered before the next
+    # object is compared (two phases - compare all, then register all - never compare the objects of one level with each other)
+    from ..logic import reach_avoiding as _ra
+    for name in ("section_unique_ids", "property_unique_ids"):
+        f = vmod.functions.get(name)
+        g = S.cfg(f)
+
+        def registers(n, f=f):
+            for r in n.expr_roots():
+                for y in ast.walk(r):
+                    if isinstance(y, ast.Call) and isinstance(y.func, ast.Attribute) and y.func.attr in ("setdefault", "update") and unparse(y.func.value) == "id_map":
+                        return True
+                    if isinstance(y, ast.Call) and isinstance(y.func, ast.Name) and y.func.id.startswith("_") and y.func.id in f.module.functions \
+                            and any(isinstance(a, ast.Name) and a.id == "id_map" for a in y.args):
+                        h = f.module.functions[y.func.id]
+                        if any(isinstance(t, ast.Subscript) and isinstance(t.ctx, ast.Store) and isinstance(t.value, ast.Name) and t.value.id in h.params
+                               for t in ast.walk(h.node)):
+                            return True       # a private helper that claims the id in the map it is handed
+            st = n.ast
+            return n.kind == "stmt" and isinstance(st, ast.Assign) and any(isinstance(t, ast.Subscript) and unparse(t.value) == "id_map" for t in st.targets)
+        loops = [h for h in g.nodes if h.kind == "for" and any(isinstance(y, ast.Compare) and any(isinstance(o, (ast.In, ast.NotIn)) for o in y.ops)
+                                                                and unparse(y.comparators[0]) == "id_map" for y in ast.walk(h.ast))
+                 or (h.kind == "for" and any(registers(m) for m in g.nodes if g.dominates(h, m) and m.id != h.id and any(x is m.ast for x in ast.walk(h.ast))))]
+        reg_ids = set(n.id for n in g.nodes if registers(n))
+        for hd in loops:
+            def reported(src, kind, dst):
+                # the edge on which the id was found in the map (the duplicate is reported instead of being registered)
+                if src.kind != "branch" or kind not in ("true", "false"):
+                    return False
+                for y in ast.walk(src.ast.test):
+                    if isinstance(y, ast.Compare) and len(y.ops) == 1 and unparse(y.comparators[0]) == "id_map":
+                        if isinstance(y.ops[0], ast.In):
+                            return kind == "true"
+                        if isinstance(y.ops[0], ast.NotIn):
+                            return kind == "false"
+                return False
+            firsts = [m for k0, m in hd.succ if k0 == "iter"]
+            body_regs = set(i for i in reg_ids if any(x.id == i and any(y is x.ast for y in ast.walk(hd.ast)) for x in g.nodes))
+            idle = any(_ra(g, f0, hd, lambda s0, k0, d0: d0.id in body_regs or s0.id in body_regs or reported(s0, k0, d0), skip_kinds=("exc",))
+                       and f0.id not in body_regs for f0 in firsts)
+            tests_here = any(isinstance(y, ast.Compare) and unparse(y.comparators[0]) == "id_map" for y in ast.walk(hd.ast)) or bool(body_regs)
+            if not tests_here:
+                continue
+            rep.check(not idle, "ACC-1", "%s: an id that is not taken yet is registered in the same iteration" % name, "ok",
+                      "an iteration of `for %s in %s` can finish without registering an id that was not in the map: the objects of one level are "
+                      "never compared with each other" % (unparse(hd.ast.target), unparse(hd.ast.iter)[:40]), where(f, hd.ast),
+                      witness="two Properties of one Section with the same id: no error, the document is saved")
     du = vmod.functions.get("document_unique_ids")
     cs = [c for c in calls_in(du.node) if call_name(c) == "section_unique_ids"]
     def _seed_map(e):
